@@ -71,7 +71,6 @@ STORE = Store()
 
 class SV:
     __slots__ = ('e', 'lo', 'hi', 'kind', 'signed')
-    __array_ufunc__ = None
     __array_priority__ = 1000
 
     def __init__(self, e, lo=None, hi=None, kind='i'):
@@ -141,37 +140,37 @@ class SV:
         return isinstance(o, np.ndarray)
 
     def __add__(self, o):
-        return NotImplemented if isinstance(o, np.ndarray) else arith('+', self, o)
+        return NotImplemented if isinstance(o, np.ndarray) or getattr(o, '_is_matrix', False) else arith('+', self, o)
 
     def __radd__(self, o):
         return arith('+', o, self)
 
     def __sub__(self, o):
-        return NotImplemented if isinstance(o, np.ndarray) else arith('-', self, o)
+        return NotImplemented if isinstance(o, np.ndarray) or getattr(o, '_is_matrix', False) else arith('-', self, o)
 
     def __rsub__(self, o):
         return arith('-', o, self)
 
     def __mul__(self, o):
-        return NotImplemented if isinstance(o, np.ndarray) else arith('*', self, o)
+        return NotImplemented if isinstance(o, np.ndarray) or getattr(o, '_is_matrix', False) else arith('*', self, o)
 
     def __rmul__(self, o):
         return arith('*', o, self)
 
     def __mod__(self, o):
-        return NotImplemented if isinstance(o, np.ndarray) else arith('%', self, o)
+        return NotImplemented if isinstance(o, np.ndarray) or getattr(o, '_is_matrix', False) else arith('%', self, o)
 
     def __floordiv__(self, o):
-        return NotImplemented if isinstance(o, np.ndarray) else arith('//', self, o)
+        return NotImplemented if isinstance(o, np.ndarray) or getattr(o, '_is_matrix', False) else arith('//', self, o)
 
     def __truediv__(self, o):
-        return NotImplemented if isinstance(o, np.ndarray) else arith('/', self, o)
+        return NotImplemented if isinstance(o, np.ndarray) or getattr(o, '_is_matrix', False) else arith('/', self, o)
 
     def __rtruediv__(self, o):
         return arith('/', o, self)
 
     def __pow__(self, o):
-        return NotImplemented if isinstance(o, np.ndarray) else arith('**', self, o)
+        return NotImplemented if isinstance(o, np.ndarray) or getattr(o, '_is_matrix', False) else arith('**', self, o)
 
     def __rpow__(self, o):
         return arith('**', o, self)
@@ -186,22 +185,22 @@ class SV:
         return ite(compare('<', self, 0), arith('-', 0, self), self)
 
     def __eq__(self, o):
-        return NotImplemented if isinstance(o, np.ndarray) else compare('==', self, o)
+        return NotImplemented if isinstance(o, np.ndarray) or getattr(o, '_is_matrix', False) else compare('==', self, o)
 
     def __ne__(self, o):
-        return NotImplemented if isinstance(o, np.ndarray) else compare('!=', self, o)
+        return NotImplemented if isinstance(o, np.ndarray) or getattr(o, '_is_matrix', False) else compare('!=', self, o)
 
     def __lt__(self, o):
-        return NotImplemented if isinstance(o, np.ndarray) else compare('<', self, o)
+        return NotImplemented if isinstance(o, np.ndarray) or getattr(o, '_is_matrix', False) else compare('<', self, o)
 
     def __le__(self, o):
-        return NotImplemented if isinstance(o, np.ndarray) else compare('<=', self, o)
+        return NotImplemented if isinstance(o, np.ndarray) or getattr(o, '_is_matrix', False) else compare('<=', self, o)
 
     def __gt__(self, o):
-        return NotImplemented if isinstance(o, np.ndarray) else compare('>', self, o)
+        return NotImplemented if isinstance(o, np.ndarray) or getattr(o, '_is_matrix', False) else compare('>', self, o)
 
     def __ge__(self, o):
-        return NotImplemented if isinstance(o, np.ndarray) else compare('>=', self, o)
+        return NotImplemented if isinstance(o, np.ndarray) or getattr(o, '_is_matrix', False) else compare('>=', self, o)
 
     def __invert__(self):
         return b_not(self)
@@ -540,7 +539,6 @@ def ite(c, a, b):
 class SDyad:
     """m * 2**-k, m int or int SV, k concrete >= 0.  Exact model of the few float scalars of the kernels
     (log2prob in {0,-1,-2,..}, trace / prob in {0, 2**-j}); stated assumption: those floats are dyadic."""
-    __array_ufunc__ = None
     __array_priority__ = 1000
 
     def __init__(self, m, k):
@@ -618,13 +616,13 @@ class SDyad:
     def __repr__(self):
         return 'SDyad(%r * 2**-%d)' % (self.m, self.k)
 
-    def __add__(self, o): return NotImplemented if isinstance(o, np.ndarray) else arith('+', self, o)
+    def __add__(self, o): return NotImplemented if (isinstance(o, np.ndarray) or getattr(o, '_is_matrix', False)) else arith('+', self, o)
     def __radd__(self, o): return arith('+', o, self)
-    def __sub__(self, o): return NotImplemented if isinstance(o, np.ndarray) else arith('-', self, o)
+    def __sub__(self, o): return NotImplemented if (isinstance(o, np.ndarray) or getattr(o, '_is_matrix', False)) else arith('-', self, o)
     def __rsub__(self, o): return arith('-', o, self)
-    def __mul__(self, o): return NotImplemented if isinstance(o, np.ndarray) else arith('*', self, o)
+    def __mul__(self, o): return NotImplemented if (isinstance(o, np.ndarray) or getattr(o, '_is_matrix', False)) else arith('*', self, o)
     def __rmul__(self, o): return arith('*', o, self)
-    def __truediv__(self, o): return NotImplemented if isinstance(o, np.ndarray) else arith('/', self, o)
+    def __truediv__(self, o): return NotImplemented if (isinstance(o, np.ndarray) or getattr(o, '_is_matrix', False)) else arith('/', self, o)
     def __rtruediv__(self, o): return arith('/', o, self)
     def __neg__(self): return arith('-', 0, self)
     def __eq__(self, o): return compare('==', self, o)
@@ -699,7 +697,6 @@ _IPOW = [(1, 0), (0, 1), (-1, 0), (0, -1)]
 
 
 class SC:
-    __array_ufunc__ = None
     __array_priority__ = 1000
 
     def __init__(self, re, im=0):
@@ -769,13 +766,13 @@ class SC:
     def __repr__(self):
         return 'SC(%r,%r)' % (self.re, self.im)
 
-    def __add__(self, o): return NotImplemented if isinstance(o, np.ndarray) else arith('+', self, o)
+    def __add__(self, o): return NotImplemented if (isinstance(o, np.ndarray) or getattr(o, '_is_matrix', False)) else arith('+', self, o)
     def __radd__(self, o): return arith('+', o, self)
-    def __sub__(self, o): return NotImplemented if isinstance(o, np.ndarray) else arith('-', self, o)
+    def __sub__(self, o): return NotImplemented if (isinstance(o, np.ndarray) or getattr(o, '_is_matrix', False)) else arith('-', self, o)
     def __rsub__(self, o): return arith('-', o, self)
-    def __mul__(self, o): return NotImplemented if isinstance(o, np.ndarray) else arith('*', self, o)
+    def __mul__(self, o): return NotImplemented if (isinstance(o, np.ndarray) or getattr(o, '_is_matrix', False)) else arith('*', self, o)
     def __rmul__(self, o): return arith('*', o, self)
-    def __truediv__(self, o): return NotImplemented if isinstance(o, np.ndarray) else arith('/', self, o)
+    def __truediv__(self, o): return NotImplemented if (isinstance(o, np.ndarray) or getattr(o, '_is_matrix', False)) else arith('/', self, o)
     def __rtruediv__(self, o): return arith('/', o, self)
     def __neg__(self): return arith('-', 0, self)
     def __eq__(self, o): return NotImplemented if isinstance(o, np.ndarray) else compare('==', self, o)
